@@ -2,7 +2,7 @@
 import json
 import os
 
-from .hir import walk, strip_generics, children
+from .hir import walk, strip_generics, children, pat_binds
 
 VERIF = os.path.dirname(os.path.dirname(os.path.abspath(__file__)))
 
@@ -16,9 +16,8 @@ PANIC_CALLS = {
     "alloc::vec::Vec::drain": "drain", "core::slice::<impl [T]>::copy_from_slice": "copy_from_slice",
     "alloc::collections::vec_deque::VecDeque::remove": "vec_remove",
 }
-PANIC_MACROS = ("bang:panic", "bang:unreachable", "bang:assert", "bang:assert_eq", "bang:assert_ne", "bang:todo",
-                "bang:unimplemented")
-DEBUG_MACROS = ("bang:debug_assert", "bang:debug_assert_eq", "bang:debug_assert_ne")
+PANIC_MACROS = ("panic", "unreachable", "assert", "assert_eq", "assert_ne", "todo", "unimplemented")
+DEBUG_MACROS = ("debug_assert", "debug_assert_eq", "debug_assert_ne")
 
 
 class CallGraph:
@@ -101,12 +100,70 @@ class CallGraph:
         return None
 
 
+_LETS = {}
+
+
+def collect_lets(body_value):
+    """var -> ('let'|'part', init expr) for single-assignment locals (let x = e; if let P(x) = e; match e { P(x) => })."""
+    lets = {}
+    assigned = set()
+    for n in walk(body_value):
+        k = n["k"]
+        if k == "block":
+            for s in n.get("stmts", []):
+                if s["k"] == "let" and "init" in s:
+                    if s["pat"].get("k") == "bind":
+                        lets[s["pat"]["var"]] = ("let", s["init"])
+                    else:
+                        for b in pat_binds(s["pat"]):
+                            lets[b["var"]] = ("part", s["init"])
+        elif k == "let_cond":
+            for b in pat_binds(n["pat"]):
+                lets[b["var"]] = ("part", n["init"])
+        elif k == "match" and n.get("src") == "normal":
+            for arm in n["arms"]:
+                for b in pat_binds(arm["pat"]):
+                    lets[b["var"]] = ("part", n["scrut"])
+        elif k == "match" and n.get("src") == "for" and n["scrut"].get("args"):
+            # for PAT in ITER { .. }: PAT's variables are elements of ITER
+            it = n["scrut"]["args"][0]
+            for m in walk(n["arms"][0]["body"]):
+                if m["k"] == "match" and m.get("src") == "for":
+                    for arm in m["arms"]:
+                        for b in pat_binds(arm["pat"]):
+                            lets[b["var"]] = ("each", it)
+                    break
+        elif k in ("assign", "assign_op") and n["l"]["k"] == "local":
+            assigned.add(n["l"]["var"])
+    for v in assigned:
+        lets.pop(v, None)
+    # assigned variables: remember every value they are given
+    for n in walk(body_value):
+        k = n["k"]
+        if k in ("assign", "assign_op") and n["l"]["k"] == "local" and n["l"]["var"] in assigned:
+            lets.setdefault(n["l"]["var"], ("mut", []))[1].append((n.get("op", "="), n["r"]))
+        if k == "block":
+            for s in n.get("stmts", []):
+                if s["k"] == "let" and "init" in s and s["pat"].get("k") == "bind" and s["pat"]["var"] in assigned:
+                    lets.setdefault(s["pat"]["var"], ("mut", []))[1].insert(0, ("init", s["init"]))
+    return lets
+
+
 def short_descr(c, e, depth=0):
-    """Compact, line-free description of an expression (for site keys)."""
-    if depth > 4:
+    """Compact, line-free description of an expression (for site keys); single-assignment locals are resolved."""
+    if depth > 8:
         return ".."
     k = e["k"]
     if k == "local":
+        d = _LETS.get(e.get("var"))
+        if d is not None and depth < 7:
+            kind, init = d
+            if kind == "mut":
+                return "%s<%s>" % (e.get("name", "?"), "; ".join("%s %s" % (op, short_descr(c, r, depth + 3)) for op, r in init))
+            s = short_descr(c, init, depth + 1)
+            if kind == "each":
+                return "each(%s)" % s
+            return s if kind == "let" else "(%s)?" % s
         return e.get("name", "?")
     if k == "field":
         return short_descr(c, e["base"], depth + 1) + "." + e["name"]
@@ -131,6 +188,20 @@ def short_descr(c, e, depth=0):
         return "%s{%s}" % (nm, ",".join(short_descr(c, f["e"], depth + 1) for f in e["fields"]))
     if k == "block" and not e.get("stmts") and "tail" in e:
         return short_descr(c, e["tail"], depth)
+    if k == "block" and "tail" in e:
+        return "{..; %s}" % short_descr(c, e["tail"], depth + 1)
+    if k == "if":
+        cond = e["cond"]
+        cd = ("%s~%s" % (short_descr(c, cond["init"], depth + 1), pat_descr(cond["pat"]))) if cond["k"] == "let_cond" else short_descr(c, cond, depth + 1)
+        return "if(%s){%s}else{%s}" % (cd, short_descr(c, e["then"], depth + 1), short_descr(c, e["else"], depth + 1) if "else" in e else "")
+    if k in ("continue", "break", "ret"):
+        return k
+    if k == "match":
+        return "match(%s)" % short_descr(c, e["scrut"], depth + 1)
+    if k == "assign":
+        return "%s = %s" % (short_descr(c, e["l"], depth + 1), short_descr(c, e["r"], depth + 1))
+    if k == "assign_op":
+        return "%s %s %s" % (short_descr(c, e["l"], depth + 1), e["op"], short_descr(c, e["r"], depth + 1))
     if k == "def":
         return (e.get("path") or "def").rsplit("::", 1)[-1]
     return k
@@ -169,6 +240,8 @@ def walk_guarded(c, e, guards=()):
             yield x
         if cond["k"] == "let_cond":
             g = "%s~%s" % (short_descr(c, cond["init"]), pat_descr(cond["pat"]))
+        elif cond["k"] == "lit" and "cfg" in c.macros(cond):
+            g = "cfg!(..)"
         else:
             g = short_descr(c, cond)
         for x in walk_guarded(c, e["then"], guards + (g,)):
@@ -196,10 +269,12 @@ def walk_guarded(c, e, guards=()):
 
 def sites(c, fid, body, kinds):
     """Yield dict(kind, what, descr, loc, node) for sites of the requested kinds inside a body."""
+    global _LETS
+    _LETS = collect_lets(body["value"])
     for n, guards in walk_guarded(c, body["value"]):
         k = n["k"]
         gtxt = (" under " + " && ".join(guards)) if guards else ""
-        mb = c.mb(n)
+        mb = c.macros(n)
         if "panic" in kinds:
             cal = n.get("callee")
             if cal:
@@ -208,13 +283,13 @@ def sites(c, fid, body, kinds):
                     args = ([n["recv"]] if k == "mcall" else []) + n.get("args", [])
                     yield dict(kind="panic", what=PANIC_CALLS[base], descr=(short_descr(c, args[0]) if args else "") + gtxt, loc=c.loc(n.get("sp")), node=n)
                 elif base.startswith("core::panicking::") or base.startswith("std::rt::begin_panic") or base == "core::panicking::panic_fmt":
-                    macro = next((m for m in mb if m in PANIC_MACROS), None)
-                    dbg = any(m in DEBUG_MACROS for m in mb)
+                    macro = next((m for m in reversed(mb) if m in PANIC_MACROS), None)
+                    dbg = next((m for m in mb if m in DEBUG_MACROS), None)
                     if dbg:
                         if "debug" in kinds:
-                            yield dict(kind="debug_assert", what="debug_assert", descr="", loc=c.loc(n.get("sp")), node=n)
+                            yield dict(kind="debug_assert", what=dbg + "!", descr=gtxt.strip(), loc=c.src_loc(n), node=n)
                     else:
-                        yield dict(kind="panic", what=(macro or "bang:panic")[5:] + "!", descr="", loc=c.loc(n.get("sp")), node=n)
+                        yield dict(kind="panic", what=(macro or "panic") + "!", descr=gtxt.strip(), loc=c.src_loc(n), node=n)
             if k == "index":
                 bt = c.tys(n["base"].get("ty")) if n["base"].get("ty") is not None else "?"
                 it = c.tys(n["idx"].get("ty")) if n["idx"].get("ty") is not None else "?"
@@ -229,16 +304,20 @@ def sites(c, fid, body, kinds):
                 yield dict(kind="div", what=n["op"], descr="%s %s %s" % (short_descr(c, n["l"]), n["op"], short_descr(c, n["r"])), loc=c.loc(n.get("sp")), node=n)
         if "unsafe" in kinds and k == "block" and n.get("unsafe"):
             if not mb:  # unsafe blocks from expansions of std macros (format_args!) are not the repo's
-                yield dict(kind="unsafe", what="unsafe block", descr=short_descr(c, n.get("tail") or (n["stmts"][0].get("e") if n.get("stmts") and n["stmts"][0]["k"] == "expr" else n)),
-                           loc=c.loc(n.get("sp")), node=n)
+                inner = n.get("tail") or (n["stmts"][0].get("e") if n.get("stmts") and n["stmts"][0]["k"] == "expr" else n)
+                yield dict(kind="unsafe", what="unsafe block", descr=short_descr(c, inner) + gtxt, loc=c.loc(n.get("sp")), node=n)
 
 
 def keyed(site_list, fid):
     """Assign line-free keys: (fn, kind, what, descr, ordinal among equals)."""
+    import hashlib
     seen = {}
     out = []
     for s in site_list:
-        base = "%s | %s %s | %s" % (fid, s["kind"], s["what"], s["descr"])
+        d = s["descr"]
+        if len(d) > 260:
+            d = d[:200] + " ...#" + hashlib.sha1(d.encode()).hexdigest()[:10]
+        base = "%s | %s %s | %s" % (fid, s["kind"], s["what"], d)
         i = seen.get(base, 0)
         seen[base] = i + 1
         s["key"] = base + (" #%d" % i if i else "")
